@@ -41,19 +41,19 @@ theorem step_inv {s : State} (op : Op) (hok : OKp s) (hwf : WFp s) (hcnt : s.mtp
     | close a id =>
       cases h : closeMsg Fixes.repaired s a id with
       | ok r =>
-        obtain ⟨x, y, _, z, _⟩ := closeMsg_good (fx := Fixes.repaired) rfl hok hwf h
+        obtain ⟨x, y, _, z, _, _⟩ := closeMsg_good (fx := Fixes.repaired) rfl hok hwf h
         simp only [step, deliver, handle, h, Except.map]; exact ⟨x, y, by omega⟩
       | error e => simp only [step, deliver, handle, h, Except.map]; exact ⟨hok, hwf, by omega⟩
     | adminClose sg a id t =>
       cases h : adminCloseMsg Fixes.repaired s sg a id t with
       | ok r =>
-        obtain ⟨x, y, _, _, z, _⟩ := adminCloseMsg_good (fx := Fixes.repaired) rfl hok hwf h
+        obtain ⟨x, y, _, _, z, _, _⟩ := adminCloseMsg_good (fx := Fixes.repaired) rfl hok hwf h
         simp only [step, deliver, handle, h, Except.map]; exact ⟨x, y, by omega⟩
       | error e => simp only [step, deliver, handle, h, Except.map]; exact ⟨hok, hwf, by omega⟩
     | forceClose sg a id =>
       cases h : adminCloseMsg Fixes.repaired s sg a id false with
       | ok r =>
-        obtain ⟨x, y, _, _, z, _⟩ := adminCloseMsg_good (fx := Fixes.repaired) rfl hok hwf h
+        obtain ⟨x, y, _, _, z, _, _⟩ := adminCloseMsg_good (fx := Fixes.repaired) rfl hok hwf h
         simp only [step, deliver, handle, h, Except.map]; exact ⟨x, y, by omega⟩
       | error e => simp only [step, deliver, handle, h, Except.map]; exact ⟨hok, hwf, by omega⟩
   | beginBlock rates =>
